@@ -654,17 +654,19 @@ fn render(sess: &Session) -> Vec<String> {
         .collect()
 }
 
-/// Output lines printed after the probe's `go` was delivered (C18).
-fn probe_transcript(sess: &Session, probe_line: &str) -> Vec<String> {
+/// Search output (info / bestmove lines) printed from the delivery of input line
+/// `first_line` on (C18: the part of the session after `ucinewgame`).
+fn probe_transcript(sess: &Session, first_line: usize) -> Vec<String> {
     let mut start = None;
     for (i, e) in sess.log.iter().enumerate() {
-        if let Event::In { line, .. } = e {
-            if line == probe_line {
+        if let Event::In { n, .. } = e {
+            if *n == first_line {
                 start = Some(i);
+                break;
             }
         }
     }
-    let Some(s) = start else { return vec!["<probe go never delivered>".to_string()] };
+    let Some(s) = start else { return vec!["<probe part never delivered>".to_string()] };
     sess.log[s..]
         .iter()
         .filter_map(|e| match e {
@@ -691,6 +693,7 @@ pub fn run(_ctx: &Ctx, case: &UciCase, spec: &SchedSpec) -> RunReport {
                 fnv_str(&mut digest, l);
             }
             stats.nodes = s.nodes;
+            stats.post_cancel_max = s.post_cancel_max;
             stats.sim_ns = s.clock_ns.min(4_000_000_000_000);
             stats.probe_n("cancel-observed-mid-iteration", s.cancel_mid_iteration);
             stats.probe_n("timer-sleeps", s.sleeps);
@@ -718,13 +721,10 @@ pub fn run(_ctx: &Ctx, case: &UciCase, spec: &SchedSpec) -> RunReport {
         let (o2, sb, sched2) = execute_session(&fresh, &s2);
         stats.absorb_sched(&sched2);
         stats.eval("C18:differential");
-        let probe_go = case.script[pf..].iter().rev().find_map(|s| match s {
-            UStep::Line(l) if l.starts_with("go") => Some(l.clone()),
-            _ => None,
-        });
-        if let (Some(sb), Some(pg), true) = (sb, probe_go, o2 == Outcome::Completed) {
-            let ta = probe_transcript(sa, &pg);
-            let tb = probe_transcript(&sb, &pg);
+        let lines_before = case.script[..pf].iter().filter(|s| matches!(s, UStep::Line(_))).count();
+        if let (Some(sb), true) = (sb, o2 == Outcome::Completed) {
+            let ta = probe_transcript(sa, lines_before);
+            let tb = probe_transcript(&sb, 0);
             if ta != tb {
                 let d = ta.iter().zip(tb.iter()).position(|(a, b)| a != b).unwrap_or(ta.len().min(tb.len()));
                 let cmds: Vec<&String> = case.script.iter().filter_map(|s| if let UStep::Line(l) = s { Some(l) } else { None }).collect();
@@ -1087,14 +1087,37 @@ pub fn generate(ctx: &Ctx, prop: &str, rng: &mut Rng64, thorough: bool, index: u
             if rng.chance(300) {
                 s.push(UStep::Line("isready".to_string()));
             }
-            // probe: starts here
+            // probe: the new game starts here; everything from here on is compared with a
+            // freshly started session given the same lines (searches run to completion one
+            // at a time, depth <= 2, so the transcript does not depend on the schedule)
             case.probe_from = Some(s.len());
-            // prefer positions related to game 1 (same placements are where stale memory bites)
             let earlier: Vec<String> = s.iter().filter_map(|x| if let UStep::Line(l) = x { if l.starts_with("position") { Some(l.clone()) } else { None } } else { None }).collect();
-            let pl = if !earlier.is_empty() && rng.chance(700) { rng.pick(&earlier).clone() } else { position_line(rng, true).0 };
-            s.push(UStep::Line(pl));
-            s.push(UStep::Line(format!("go depth {}", 1 + rng.below(2))));
-            s.push(UStep::Settle(400_000));
+            let rounds = *rng.pick(&[1usize, 1, 2, 2, 3, 4]);
+            for r in 0..rounds {
+                // prefer positions related to game 1 (same placements are where stale memory
+                // bites) and book positions (answered without a search)
+                let pl = match rng.below(10) {
+                    0..=4 if !earlier.is_empty() => rng.pick(&earlier).clone(),
+                    5..=6 => "position startpos".to_string(),
+                    7 => {
+                        let k = 1 + rng.below(3) as u32;
+                        let (_, ms) = corpus::random_play(rng, &Pos::start(), k);
+                        format!("position startpos moves {}", ms.iter().map(|m| m.uci()).collect::<Vec<_>>().join(" "))
+                    }
+                    _ => position_line(rng, true).0,
+                };
+                if r == 0 || rng.chance(700) {
+                    s.push(UStep::Line(pl));
+                }
+                if rng.chance(150) {
+                    s.push(UStep::Line("isready".to_string()));
+                }
+                s.push(UStep::Line(format!("go depth {}", 1 + rng.below(2))));
+                s.push(UStep::Settle(400_000));
+                if rng.chance(200) {
+                    s.push(UStep::Line("stop".to_string()));
+                }
+            }
             s.push(UStep::Line("quit".to_string()));
         }
         _ => unreachable!(),
